@@ -100,6 +100,18 @@ pub fn worker_main(req_fd: i32, resp_fd: i32, feat: &Value) -> ! {
     }
 }
 
+/// pid numbers are recycled over long runs: a worker is identified by (pid, start time)
+fn worker_uid() -> String {
+    static START: std::sync::OnceLock<String> = std::sync::OnceLock::new();
+    START
+        .get_or_init(|| {
+            let mut ts: libc::timespec = unsafe { std::mem::zeroed() };
+            unsafe { libc::clock_gettime(libc::CLOCK_MONOTONIC, &mut ts) };
+            format!("{}-{}.{}", unsafe { libc::getpid() }, ts.tv_sec, ts.tv_nsec)
+        })
+        .clone()
+}
+
 thread_local! {
     static LAST_PANIC_LOC: std::cell::RefCell<String> = std::cell::RefCell::new(String::new());
 }
@@ -187,6 +199,7 @@ fn run_case(case: &Value) -> (Value, Option<Ctx>) {
         r["fds_changed"] = fds_json(&changed);
         r["root_fd"] = json!(ctx.root_raw);
         r["wpid"] = json!(unsafe { libc::getpid() });
+        r["wuid"] = json!(worker_uid());
         let mut lent = vec![ctx.root_raw];
         if let Some(of) = c.get("of").and_then(|v| v.as_u64()) {
             if let Some(Some(fd)) = ctx.kept.get(of as usize) {
